@@ -74,6 +74,10 @@ func stmtBlocks(body []Stmt, out *[]*[]Stmt) {
 		case *Try:
 			*out = append(*out, &x.Body)
 			stmtBlocks(x.Body, out)
+			if x.HasOth {
+				*out = append(*out, &x.Otherwise)
+				stmtBlocks(x.Otherwise, out)
+			}
 			*out = append(*out, &x.Finally)
 			stmtBlocks(x.Finally, out)
 		case *Mutex:
@@ -240,7 +244,7 @@ func cloneStmts(ss []Stmt) []Stmt {
 		case *ForGuard:
 			r[i] = &ForGuard{x.ID, cloneExpr(x.Cond), cloneStmts(x.Body)}
 		case *Try:
-			r[i] = &Try{x.ID, x.FinID, cloneStmts(x.Body), cloneStmts(x.Finally)}
+			r[i] = &Try{x.ID, x.FinID, cloneStmts(x.Body), cloneStmts(x.Finally), x.Except, x.HasOth, x.OthID, cloneStmts(x.Otherwise)}
 		case *Mutex:
 			r[i] = &Mutex{x.ID, x.Name, cloneStmts(x.Body)}
 		case *Return:
